@@ -228,3 +228,277 @@ fn process_run__spec_reaches_runner_unchanged() {
     std::mem::forget(cmd);
     std::mem::forget(rt);
 }
+
+// =====================================================================================================
+// C02 / C05: the store primitives.  The string pool is present through its CONTRACTS (proved for the real PoolSet under C12):
+//   alloc_str(s)   -> a fresh owned buffer holding s, allocator == the backing arena, inside a slot contains() owns
+//   contains(p)    -> p lies in a slot handed out by alloc_str (live or freed)
+//   dealloc(p, n)  -> the slot starting at p (if any) is released AND ITS BYTES ARE HAVOCKED: a freed slot may be handed to
+//                     another string at once, which is what makes a use-after-return visible
+// =====================================================================================================
+const SLOT: usize = 8;
+const MAXS: usize = 12;
+static mut SLOT_PTR: [usize; MAXS] = [0; MAXS];
+static mut SLOT_LIVE: [bool; MAXS] = [false; MAXS];
+static mut SLOT_FREED: [u8; MAXS] = [0; MAXS];
+static mut NSLOTS: usize = 0;
+static mut FOREIGN_DEALLOCS: usize = 0;
+
+fn alloc_str__contract<'a>(set: &PoolSet<'a>, s: &str) -> ArenaString<'a>
+where
+    'a: 'a,
+{
+    let buf: &'static mut [u8; SLOT] = Box::leak(Box::new([0xEEu8; SLOT]));
+    kani::assume(s.len() <= SLOT);
+    let mut i = 0;
+    while i < SLOT {
+        if i < s.len() {
+            buf[i] = s.as_bytes()[i];
+        }
+        i += 1;
+    }
+    unsafe {
+        kani::assume(NSLOTS < MAXS);
+        SLOT_PTR[NSLOTS] = buf.as_ptr() as usize;
+        SLOT_LIVE[NSLOTS] = true;
+        NSLOTS += 1;
+        ArenaString::from_raw_parts(NonNull::new(buf.as_mut_ptr()).unwrap(), s.len(), set.arena())
+    }
+}
+fn slot_of(addr: usize) -> Option<usize> {
+    let mut i = 0;
+    let mut r = None;
+    while i < MAXS {
+        unsafe {
+            if i < NSLOTS && addr >= SLOT_PTR[i] && addr - SLOT_PTR[i] < SLOT {
+                r = Some(i);
+            }
+        }
+        i += 1;
+    }
+    r
+}
+fn contains__contract<'a>(_set: &PoolSet<'a>, ptr: *const u8) -> bool
+where
+    'a: 'a,
+{
+    slot_of(ptr as usize).is_some()
+}
+unsafe fn dealloc__contract<'a>(_set: &PoolSet<'a>, ptr: NonNull<u8>, _size: u32)
+where
+    'a: 'a,
+{
+    match slot_of(ptr.as_ptr() as usize) {
+        Some(i) if unsafe { SLOT_PTR[i] } == ptr.as_ptr() as usize => unsafe {
+            SLOT_LIVE[i] = false;
+            SLOT_FREED[i] += 1;
+            // the slot may be recycled immediately: its old bytes are gone
+            let p = SLOT_PTR[i] as *mut u8;
+            let mut k = 0;
+            while k < SLOT {
+                *p.add(k) = 0xDD;
+                k += 1;
+            }
+        },
+        _ => unsafe { FOREIGN_DEALLOCS += 1 },
+    }
+}
+
+/// n symbolic ASCII letters (n concrete: a memcpy of symbolic length into an arena does not terminate in CBMC)
+fn any_content(n: usize) -> ([u8; 3], usize) {
+    let b: [u8; 3] = kani::any();
+    kani::assume(b[0] >= b'a' && b[0] <= b'z' && b[1] >= b'a' && b[1] <= b'z' && b[2] >= b'a' && b[2] <= b'z');
+    (b, n)
+}
+fn same_bytes(s: &str, b: &[u8; 3], n: usize) -> bool {
+    s.len() == n && (n < 1 || s.as_bytes()[0] == b[0]) && (n < 2 || s.as_bytes()[1] == b[1]) && (n < 3 || s.as_bytes()[2] == b[2])
+}
+/// Everything a frame reset may do to the bytes above the mark: poison them.
+fn poison_frame_above(frame: &'static Arena, mark: usize) {
+    let base = bk::base_of(frame);
+    let mut k = 0;
+    while k < 24 {
+        unsafe { *base.add(mark + k) = 0xDD };
+        k += 1;
+    }
+}
+
+/// A string with the given content in one of the six residences a runtime value can have.
+///   0 Borrowed(source text)  1 Borrowed(frame)  2 Borrowed(pool slot of another owner)  3 Owned(frame)  4 Owned(persistent arena)  5 Owned(pool)
+fn cow_in(residence: u8, b: &[u8; 3], n: usize, rt: &Runtime<'static>) -> ArenaCow<'static> {
+    let tmp: &'static [u8; 3] = Box::leak(Box::new(*b));
+    let s: &'static str = unsafe { std::str::from_utf8_unchecked(&tmp[..n]) };
+    match residence {
+        0 => ArenaCow::Borrowed(s),
+        1 => ArenaCow::Borrowed(ArenaString::from_str(rt.frame, s).as_arena_str()),
+        2 => ArenaCow::Borrowed(alloc_str__contract(&rt.pool, s).as_arena_str()),
+        3 => ArenaCow::Owned(ArenaString::from_str(rt.frame, s)),
+        4 => ArenaCow::Owned(ArenaString::from_str(rt.arena, s)),
+        _ => ArenaCow::Owned(alloc_str__contract(&rt.pool, s)),
+    }
+}
+
+// ArenaCow::promote(self, pool, frame)
+//   ensures the result has the same content; it does not point into the frame arena; it does not point into a pool slot it does
+//           not own (a Borrowed view of somebody else's slot gets its own copy); and it stays intact after the frame is reset
+//           and the other owner's slot is recycled
+fn cow_promote_case(residence: u8, n: usize) {
+    let arena = bk::mk_arena(1);
+    let frame = bk::mk_arena(1);
+    let rt = mk_runtime(arena, frame);
+    let (b, n) = any_content(n);
+    let mark = frame.offset();
+    let src = cow_in(residence, &b, n, &rt);
+    let src_ptr = src.as_ref().as_ptr();
+    let out = src.promote(&rt.pool, frame);
+    // the caller's frame is reset and the slot the source merely borrowed is recycled by its owner
+    poison_frame_above(frame, mark);
+    if residence == 2 {
+        unsafe { dealloc__contract(&rt.pool, NonNull::new(src_ptr.cast_mut()).unwrap(), n as u32) };
+    }
+    let p = out.as_ref().as_ptr();
+    assert!(!frame.contains_ptr(p), "post: the promoted string does not live in the frame arena");
+    assert!(same_bytes(out.as_ref(), &b, n), "post: content preserved and still intact after the frame reset / slot recycling");
+    if residence == 2 {
+        assert!(p != src_ptr, "post: a borrowed view of another owner's pool slot got its own copy");
+    }
+    if let ArenaCow::Owned(s) = &out {
+        assert!(std::ptr::eq(s.arena(), arena), "post: an owned result reports the persistent arena");
+    }
+    std::mem::forget(out);
+    std::mem::forget(rt);
+}
+
+// @harness property=C02 fn=ArenaCow::promote kind=bounded tier=quick cfg=release timeout=900 domain="bounded: all six residences (source text, frame borrowed/owned, pool borrowed/owned, persistent owned) x lengths {1, 3} (concrete shapes) with every ASCII-letter content (symbolic); pool through its contracts"
+#[kani::proof]
+#[kani::unwind(26)]
+#[kani::stub(PoolSet::alloc_str, alloc_str__contract)]
+#[kani::stub(PoolSet::contains, contains__contract)]
+#[kani::stub(PoolSet::dealloc, dealloc__contract)]
+#[kani::stub(<crate::sys::unix::UnixVirtualMemory as crate::sys::VirtualMemory>::commit, bk::vm_commit_ok)]
+fn cow_promote__contract() {
+    cow_promote_case(0, 3);
+    kani::cover!(true, "cover: source-text borrowed done");
+    cow_promote_case(1, 3);
+    kani::cover!(true, "cover: frame borrowed done");
+    cow_promote_case(2, 3);
+    kani::cover!(true, "cover: pool borrowed done");
+    cow_promote_case(3, 3);
+    kani::cover!(true, "cover: frame owned done");
+    cow_promote_case(4, 3);
+    kani::cover!(true, "cover: persistent owned done");
+    cow_promote_case(5, 3);
+    kani::cover!(true, "cover: pool owned done");
+    cow_promote_case(1, 1);
+    cow_promote_case(2, 1);
+    cow_promote_case(3, 1);
+    kani::cover!(true, "cover: all residences exercised");
+}
+
+fn str_ptr(v: &Value<'_>) -> *const u8 {
+    match v {
+        Value::Str(c) => c.as_ref().as_ptr(),
+        _ => std::ptr::null(),
+    }
+}
+fn str_is(v: &Value<'_>, b: &[u8; 3], n: usize) -> bool {
+    match v {
+        Value::Str(c) => same_bytes(c.as_ref(), b, n),
+        _ => false,
+    }
+}
+
+// Value::clone_into(&self, arena) on strings (the copy handed to expression evaluation on every variable read)
+//   ensures same content; an OWNED source is copied into `arena` (the copy shares no byte with the owner's storage, so the owner may be
+//           overwritten, go out of scope or be reset while the copy is live); a borrowed source-text string may stay borrowed
+fn clone_into_str_case(residence: u8) {
+    let arena = bk::mk_arena(1);
+    let frame = bk::mk_arena(1);
+    let rt = mk_runtime(arena, frame);
+    let (b, n) = any_content(3);
+    let src = Value::Str(cow_in(residence, &b, n, &rt));
+    let sp = str_ptr(&src);
+    let copy = src.clone_into(frame);
+    let cp = str_ptr(&copy);
+    if residence >= 3 {
+        assert!(cp != sp, "post: an owned string is copied, not aliased");
+        assert!(frame.contains_ptr(cp), "post: the copy lives in the arena it was cloned into");
+        // the owner's storage is recycled while the copy is live
+        if residence == 5 {
+            unsafe { dealloc__contract(&rt.pool, NonNull::new(sp.cast_mut()).unwrap(), n as u32) };
+        } else {
+            unsafe { std::ptr::write_bytes(sp.cast_mut(), 0xDD, n) };
+        }
+    }
+    assert!(str_is(&copy, &b, n), "post: content preserved, also after the owner's storage is recycled");
+    std::mem::forget(copy);
+    std::mem::forget(src);
+    std::mem::forget(rt);
+}
+
+// @harness property=C02,C05 fn=Value::clone_into(Str) kind=bounded tier=quick cfg=release timeout=900 domain="bounded: residences source-text borrowed, frame owned, persistent owned, pool owned; length 3 with every ASCII-letter content"
+#[kani::proof]
+#[kani::unwind(26)]
+#[kani::stub(PoolSet::alloc_str, alloc_str__contract)]
+#[kani::stub(PoolSet::contains, contains__contract)]
+#[kani::stub(PoolSet::dealloc, dealloc__contract)]
+#[kani::stub(<crate::sys::unix::UnixVirtualMemory as crate::sys::VirtualMemory>::commit, bk::vm_commit_ok)]
+fn value_clone_into__strings() {
+    clone_into_str_case(0);
+    clone_into_str_case(3);
+    clone_into_str_case(4);
+    clone_into_str_case(5);
+    kani::cover!(true, "cover: all residences exercised");
+}
+
+// Runtime::overwrite_slot(slot, val, has_frame, pool, frame)  and  Value::return_to_pool
+//   ensures the slot now holds val's content, stored outside the frame arena; the OLD value's pool slot is returned exactly once,
+//           with the size class it was allocated with; nothing else is released; without a frame arena nothing is promoted or released
+fn overwrite_case(old_residence: u8, new_residence: u8, has_frame: bool) {
+    let arena = bk::mk_arena(1);
+    let frame = bk::mk_arena(1);
+    let rt = mk_runtime(arena, frame);
+    let (b0, n0) = any_content(3);
+    let (b1, n1) = any_content(3);
+    let mut slot = Value::Str(cow_in(old_residence, &b0, n0, &rt));
+    let old_ptr = str_ptr(&slot);
+    let old_slot = slot_of(old_ptr as usize);
+    let mark = frame.offset();
+    let val = Value::Str(cow_in(new_residence, &b1, n1, &rt));
+    Runtime::overwrite_slot(&mut slot, val, has_frame, &rt.pool, frame);
+    if has_frame {
+        poison_frame_above(frame, mark);
+        assert!(!frame.contains_ptr(str_ptr(&slot)), "post: the stored value does not live in the frame arena");
+    }
+    if has_frame || new_residence != 3 {
+        assert!(str_is(&slot, &b1, n1), "post: the slot holds the new content (intact after the frame reset)");
+    }
+    unsafe {
+        if let Some(i) = old_slot {
+            if old_residence == 5 && has_frame {
+                assert!(SLOT_FREED[i] == 1 && !SLOT_LIVE[i], "post: the old value's pool slot is returned exactly once");
+            } else {
+                assert!(SLOT_FREED[i] == 0, "post: a slot the old value did not own is not released");
+            }
+        }
+        assert!(FOREIGN_DEALLOCS == 0, "post: nothing that is not a pool slot start is handed to dealloc");
+    }
+    std::mem::forget(slot);
+    std::mem::forget(rt);
+}
+
+// @harness property=C02 fn=Runtime::overwrite_slot+Value::return_to_pool kind=bounded tier=quick cfg=release timeout=900 domain="bounded: old value in {pool owned, persistent owned, source-text borrowed}, new value in {frame owned, pool owned, source-text borrowed}, with and without a frame arena; contents of 3 symbolic ASCII letters"
+#[kani::proof]
+#[kani::unwind(26)]
+#[kani::stub(PoolSet::alloc_str, alloc_str__contract)]
+#[kani::stub(PoolSet::contains, contains__contract)]
+#[kani::stub(PoolSet::dealloc, dealloc__contract)]
+#[kani::stub(<crate::sys::unix::UnixVirtualMemory as crate::sys::VirtualMemory>::commit, bk::vm_commit_ok)]
+fn overwrite_slot__contract() {
+    overwrite_case(5, 3, true);
+    overwrite_case(4, 3, true);
+    overwrite_case(0, 5, true);
+    overwrite_case(5, 0, true);
+    overwrite_case(5, 3, false);
+    kani::cover!(true, "cover: all cases exercised");
+}
